@@ -75,5 +75,7 @@ Cap == closed \/ StoredOk(1 + Cardinality(avail), Limit)
 Abandoned == {q \in seen : q # cur /\ q \notin avail /\ (q < rpt \/ q < cur)}
 AnnounceRetirement == closed \/ \A q \in Abandoned : q \in toRetire \cup inFlight \cup retired \/ q \notin seen
 Eventually == closed \/ (\A q \in 0..MaxSeq : (q \in toRetire) ~> (q \in inFlight \cup retired \/ closed))
+\* an ID whose retirement is being or has been announced is never the destination again
+NoReuse == closed \/ cur \notin (toRetire \cup inFlight \cup retired)
 IssueWithinLimit == IssueOk(Cardinality(issued \ retiredByPeer), Limit)
 =============================================================================
